@@ -124,7 +124,6 @@ class Report:
         if key in self._seen_cases:
             return "dup"
         self._seen_cases.add(key)
-        self.ob(obligation)["status"] = "failed"
         try:
             out = self.module.replay(case)
         except Exception as ex:
@@ -150,12 +149,15 @@ class Report:
             ent = [k for k in self.known if k["id"] == fid and k["status"] == "known"]
             if ent:
                 self.known_hits.setdefault(fid, []).append(case)
+                if self.ob(obligation)["status"] != "failed":
+                    self.ob(obligation)["status"] = "known-finding"
                 return f"known:{fid}"
         d = os.path.join(ROOT, "replays", self.pid)
         os.makedirs(d, exist_ok=True)
         path = os.path.join(d, f"{key}.json")
         with open(path, "w") as f:
             json.dump({"case": case, "summary": summary, "replay": _jsonable(out)}, f, indent=1)
+        self.ob(obligation)["status"] = "failed"
         self.violations.append({"obligation": obligation, "summary": summary, "replay": path, "case": case})
         return "violation"
 
